@@ -24,3 +24,13 @@ type I interface {
 	Get(a int) int
 	other()
 }
+
+//go:noinline
+func S4(a int) (int, error) { return -5000 - a + pad*3, nil }
+
+//go:noinline
+func S5(a int) interface{} { return nil }
+
+type SeqErr struct{ pos int }
+
+func (e *SeqErr) Error() string { return "seq" }
